@@ -469,6 +469,16 @@ def run(ctx) -> None:
         ctx.check("R5", reps.get(src) == dst, f"_format_segment renders {src!r} as {dst!r}",
                   f"v2version._format_segment: {src!r} is not rendered as {dst!r}", f"replacements: {reps}", loc=fs.loc())
 
+    # renderer and recogniser treat the anchors alike: a character that the renderer drops as an anchor must not be turned into a
+    # literal by the escape table, otherwise the text rendered for an anchored pattern is not found by that pattern
+    dropped = {src for src, dst in reps.items() if dst == "" and len(src) == 1}
+    esc_tab = prog.const("patterns", "RE_PATTERN_ESCAPES")
+    clash = sorted(dropped & {c_ for c_, _e in esc_tab})
+    ctx.check("R5", not clash, f"no anchor character dropped by the renderer ({sorted(dropped)}) is escaped to a literal by RE_PATTERN_ESCAPES",
+              "patterns.RE_PATTERN_ESCAPES escapes an anchor that the renderer drops",
+              f"{clash}: the README's own file patterns (`version=\"{{version}}\",$`) then demand a literal `$` in the file, the rendered text has none: update ends with 'No match for pattern'",
+              loc="src/bumpver/patterns.py", witness={"pattern": 'version="{version}",$'})
+
     # ---------------------------------------------------------------- R6
     ini_verbatim_rule(ctx, "R6")
 
